@@ -58,7 +58,7 @@ def gen(rng, scenario, tier):
         cfg = {"alpha": rng.choice([0.01, 0.05, 0.2, 0.4, 0.7]), "bootstrap_samples": rng.randint(5, 30), "count_ubound": rng.randint(2, 12),
                "cutpoint_proportion_lbound": rng.choice([2e-10, 2e-10, 0.1])}
         bs, drifts = workload.batches(rng, rng.randint(5, 14), d, 10, 80, drift_rate=rng.choice([0.2, 0.4]),
-                                      dup=rng.choice([0, 0, 0.2]), integer=rng.random() < 0.15)
+                                      dup=rng.choice([0, 0, 0.2]), integer=rng.random() < 0.15, regimes=("offset", "tiny", "lattice"))
         ev = []
         if rng.random() < 0.7:
             ev.append(["ref", bs[0], np_seed(rng)])
@@ -90,7 +90,14 @@ def gen(rng, scenario, tier):
         x = [round(rng.gauss((far if burst_left > 0 else mu), 1), 3) for _ in range(d)]
         burst_left -= 1
         ev.append(["u", x, np_seed(rng)])
-    return {"cfg": cfg, "events": ev}
+    rows, reg = workload.apply_regime(rng, [e[1] for e in ev], ("offset", "tiny", "lattice"), p=0.25)
+    ev = [[e[0], r, e[2]] for e, r in zip(ev, rows)]
+    # observations whose values happen to be whole numbers arrive integer-typed (a reader that yields ints for "3" and floats for
+    # "3.5"); without the lattice regime the very first observation is made whole on purpose in some runs
+    int_typed = rng.random() < (0.6 if reg == "lattice" else 0.2)
+    if int_typed and reg is None:
+        ev[0][1] = [float(round(v)) for v in ev[0][1]]
+    return {"cfg": cfg, "events": ev, "regime": reg, "int_typed": int_typed}
 
 
 def critical_from_log(ctx, calls, ref_counts, n, alpha, B, what):
@@ -259,7 +266,11 @@ def run_stream(case, ctx, log, km):
             phase, refbuf = "ref", []
         del log[:]
         np.random.seed(seed)
-        ctx.call("C09:stream:update", det.update, x.copy())
+        if case.get("int_typed") and all(float(v).is_integer() and abs(v) < 2**40 for v in row):
+            ctx.fault("integer_typed_observation")
+            ctx.call("C09:stream:update", det.update, x.astype(np.int64))
+        else:
+            ctx.call("C09:stream:update", det.update, x.copy())
         ctx.sim_time += 1
         exp = None
         div = None
